@@ -445,7 +445,7 @@ fn check_inner(s: &'static dyn Proto, c: &Case, st: &mut Stats) -> CaseResult {
 
 pub const BUDGET: Budget = Budget {
     quick: (1000, 360, 110),
-    thorough: (8000, 2500, 800),
+    thorough: (30000, 9000, 3000),
     shrink: 200,
 };
 
